@@ -82,6 +82,8 @@ def main():
     extra = [x for e in a.edit for x in ('--edit', e)]
     reports = run_units(spec['units'], extra)
     broken = []; undecided = []; obls = []; functions = []; trusted = []; dropped = set(); infos = {}
+    for i in range(len(a.edit)):
+        if not any(i < len(r.get('edits_applied', [])) and r['edits_applied'][i] for r in reports.values()): broken.append(f"--edit #{i + 1} matched no source text of the units of {pid}")
     for u, r in reports.items():
         if r['status'] == 'crash': broken.append(f"unit {u} crashed: {r.get('error')}"); continue
         if r['status'] == 'unsupported': undecided.append(f"unit {u}: unsupported construct: {r.get('error')}"); continue
@@ -99,8 +101,8 @@ def main():
     supplements = []
     for sup in spec.get('supplements', []):
         if sup.get('tier', 'quick') == 'thorough' and a.tier != 'thorough': continue
-        r = native(sup['driver'], dict(sup.get('args', {}), tier=a.tier, seed=seed), timeout=sup.get('timeout', 900))
-        supplements.append({'name': sup['name'], 'bounded': True, 'bound': sup['bound'], 'result': {kx: vx for kx, vx in r.items() if kx != 'failures'}, 'failures': r.get('failures', [])[:20]})
+        r = native(sup['driver'], dict(sup.get('args', {}), tier=a.tier, seed=seed), timeout=sup.get('timeout', 900), prop=pid)
+        supplements.append({'name': sup['name'], 'bounded': True, 'bound': sup['bound'], 'driver': sup['driver'], 'args': sup.get('args', {}), 'result': {kx: vx for kx, vx in r.items() if kx != 'failures'}, 'failures': r.get('failures', [])[:20]})
     # ---- verdicts
     known = [kf for kf in load_known() if kf.get('property') == pid and kf.get('status') == 'open']
     refuted = collections.OrderedDict()
@@ -130,21 +132,25 @@ def main():
         json.dump({'property': pid, 'obligation': name, 'unit': o['unit'], 'paths_refuted': len(os_), 'solver': o['solver'], 'solver_verdict': o['raw'], 'driver': drv, 'scenario': scenario,
                    'model_excerpt': o.get('model_excerpt'), 'native': nat, 'functions': [f for f in functions if f['unit'] == o['unit']],
                    'rerun': f"./check {pid} --replay {rel}"}, open(os.path.join(ROOT, rel), 'w'), indent=1, default=str)
-        kf = next((kf for kf in known if kf['obligation'] == name), None)
+        kf = next((kf for kf in known if kf.get('obligation') == name), None)
         if kf: lines.append(f"KNOWN-FINDING: property={pid} {name}: {kf['what']}"); nknown += 1
         else:
             lines.append(f"VIOLATION property={pid} replay={rel}" + ("" if nat.get('reproduced') else " no-failing-input-found")); nviol += 1
     for s in supplements:
+        unknown_fl = []
         for i, fl in enumerate(s['failures']):
-            key = fl.get('key', f"{s['name']}#{i}")
-            kf = next((kf for kf in known if kf['obligation'] == f"supplement:{s['name']}:{key}"), None)
-            if kf: lines.append(f"KNOWN-FINDING: property={pid} supplement:{s['name']}:{key}: {kf['what']}"); nknown += 1
-            else:
-                rel = f"replays/{pid}-supplement-{slug(s['name'] + '-' + str(key))}.json"
-                json.dump({'property': pid, 'obligation': f"supplement:{s['name']}:{key}", 'bounded': True, 'failure': fl}, open(os.path.join(ROOT, rel), 'w'), indent=1, default=str)
-                lines.append(f"VIOLATION property={pid} replay={rel}"); nviol += 1
+            key = f"supplement:{s['name']}:{fl.get('key', i)}"
+            kf = next((kf for kf in known if kf.get('obligation') == key or (kf.get('obligation_regex') and re.search(kf['obligation_regex'], key))), None)
+            if kf:
+                if kf.get('id') not in s.setdefault('known_reported', []): s['known_reported'].append(kf.get('id')); lines.append(f"KNOWN-FINDING: property={pid} {kf.get('obligation') or kf.get('obligation_regex')}: {kf['what']}"); nknown += 1
+            else: unknown_fl.append((key, fl))
+        if unknown_fl:
+            rel = f"replays/{pid}-supplement-{slug(s['name'])}.json"
+            json.dump({'property': pid, 'obligation': f"supplement:{s['name']}", 'bounded': True, 'bound': s['bound'], 'driver': s.get('driver'), 'scenario': s.get('args', {}),
+                       'failing_inputs': [dict(fl, key=key) for key, fl in unknown_fl], 'rerun': f"./check {pid} --replay {rel}"}, open(os.path.join(ROOT, rel), 'w'), indent=1, default=str)
+            lines.append(f"VIOLATION property={pid} replay={rel}"); nviol += 1
     proved = [o for o in goals if o['status'] == 'proved']
-    n_known_refuted = sum(len(v) for n_, v in refuted.items() if any(kf['obligation'] == n_ for kf in known))
+    n_known_refuted = sum(len(v) for n_, v in refuted.items() if any(kf.get('obligation') == n_ for kf in known))
     # ---- evidence
     samples = []
     seen = set()
@@ -156,7 +162,7 @@ def main():
           'coverage': {'obligations': len(goals) - n_known_refuted, 'discharged': len(proved), 'obligations_generated': len(goals), 'distinct_obligation_names': len({o['name'] for o in goals}),
                        'counting_rule': "obligations = obligations generated for this property minus those refuted AND listed as open known findings (reported as KNOWN-FINDING lines, listed under known_findings); "
                                         "with an open known finding the property as a whole does NOT hold - the proof covers the remaining obligations only",
-                       'refuted_known_findings': n_known_refuted, 'known_findings': [{'id': kf.get('id'), 'obligation': kf['obligation'], 'what': kf['what']} for kf in known if kf['obligation'] in refuted],
+                       'refuted_known_findings': n_known_refuted, 'known_findings': [{'id': kf.get('id'), 'obligation': kf.get('obligation') or kf.get('obligation_regex'), 'what': kf['what']} for kf in known if kf.get('obligation') in refuted or any(kf.get('id') in s.get('known_reported', []) for s in supplements)],
                        'undecided': len(und), 'checker_cmd': f"./check {pid} --tier {a.tier}   (units: " + ", ".join(f"python3-vt -m pyvc.unit {u}" for u in spec['units']) + ")",
                        'trusted_base': trusted + ['z3 ' + next((r.get('solvers', {}).get('z3', '?') for r in reports.values()), '?') + ' (unsat answers trusted); cvc5 1.0.3 for z3 unknowns'],
                        'discharged_by': dict(by_solver), 'solver_ms_total': sum(o['ms'] for o in goals),
